@@ -151,8 +151,14 @@ func (x *walFaultRun) step(ws []string) (out string) {
 			out = "panic " + strings.ReplaceAll(fmt.Sprint(p), " ", "_")
 		}
 	}()
+	if ws[0] != "seal" && len(x.files) == 0 {
+		return "noseal" // (a shrunk script may have lost its seal line)
+	}
 	switch ws[0] {
 	case "seal":
+		if x.w == nil {
+			return "noseal"
+		}
 		x.w.Close()
 		x.w = nil
 		x.files = nil
